@@ -175,10 +175,10 @@ Pre(c, m) ==
         \o DepOpenFrom(c, m, DepsOf(c, m))
         \o (IF WillDepFail(c, m) THEN <<>>
             ELSE IF mc.task \in {"ts", "ts0"}
-                 THEN <<I("start", m, 0, "", "go", NoG, "start"), I("end", m, 0, mc.outcome, "yield", NoG, "")>>
+                 THEN <<I("start", m, 0, "argok", "go", NoG, "start"), I("end", m, 0, mc.outcome, "yield", NoG, "")>>
                  ELSE IF mc.body = "instant"
-                 THEN <<I("start", m, 0, "", "go", NoG, "start"), I("end", m, 0, mc.outcome, "go", NoG, "")>>
-                 ELSE <<I("start", m, 0, "", "body", NoG, "start")>>))
+                 THEN <<I("start", m, 0, "argok", "go", NoG, "start"), I("end", m, 0, mc.outcome, "go", NoG, "")>>
+                 ELSE <<I("start", m, 0, "argok", "body", NoG, "start")>>))
 
 StaticOutcome(c, m) ==
   LET mc == MsgC(c, m) IN
